@@ -37,6 +37,7 @@ from elementpath.xpath_context import XPathSchemaContext
 from elementpath.xpath_tokens import XPathToken, XPathFunction, XPathConstructor
 
 from .xpath2_parser import XPath2Parser
+from elementpath.helpers import OPTIONAL_COMMENTS
 
 __all__ = ['XPath2Parser']
 
@@ -884,7 +885,7 @@ def nud__schema_node_kind_test(self: XPathFunction) -> XPathFunction:
 XPath2Parser.unregister('attribute')
 XPath2Parser.register(
     'attribute', lbp=90, rbp=90, label=('kind test', 'axis'),
-    pattern=r'\battribute(?=\s*\:\:|\s*\(\:.*\:\)\s*\:\:|\s*\(|\s*\(\:.*\:\)\()'
+    pattern=r'\battribute(?=' + OPTIONAL_COMMENTS + r'(?:\:\:|\((?!\:)))'
 )
 
 
